@@ -226,7 +226,7 @@ VERUS_UNITS = {
     },
     'syscalls': {
         'template': 'syscalls.rs.tpl',
-        'owners': [(r'(spawned_syscall|syscall_with_validation|named_syscall|named_syscall_direct|ims_default|register_named_system_from)$', ['C17']), (r'IdMappedSystems::default$', ['C17'])],
+        'owners': [(r'(spawned_syscall|syscall_with_validation|named_syscall|named_syscall_direct|ims_default|register_named_system_from)$', ['C17']), (r'IdMappedSystems::default$', ['C17']), (r'(spawn_system_from|SysId::(new|entity)|SpawnedSystem::new)$', ['C17'])],
         'negctl': [
             # S3: the SAME system value must be stored back
             ('final(world).spawned::<I, O>() =~= out.0.spawned::<I, O>().insert(e, SpawnedSystem { system: Some(out.1) }))', 'final(world).spawned::<I, O>() =~= out.0.spawned::<I, O>().insert(e, SpawnedSystem { system: Some(st->Some_0.system->Some_0) }))', 'spawned_syscall'),
